@@ -9,7 +9,6 @@ open BV.Bits
 theorem pad_ne_fuel (s : St) : injectBytePaddingBlock s ≠ .fuel := by
   intro h
   unfold injectBytePaddingBlock at h
-  simp only at h
   split_all h
   all_goals simp at h
 
